@@ -4,6 +4,7 @@ import (
 	"fmt"
 	"go/ast"
 	"go/types"
+	"golang.org/x/tools/go/ssa"
 	"strings"
 
 	"gverif/internal/load"
@@ -119,10 +120,15 @@ func C08(e *Env) {
 	// the generated file must not depend on what was at the -o path before
 	r.Rule("R10.1", "the output is written by exactly one os.WriteFile (create-or-truncate, whole content): the generated file is a function of the inputs, not of a previous file at the -o path (shared with C10)", 1)
 	nw := 0
+	var wHelper08 *ssa.Function
+	if gen := e.P.Func("internal/cmd/runner", "StepCodeGenerator.Run"); gen != nil {
+		_, _, _, wHelper08, _ = writeSite(gen)
+	}
 	for _, c := range moduleCalls(e.P) {
 		if fileMutators[c.name] {
 			key := c.fnKey + " -> " + c.name
-			if c.name == "os.WriteFile" && c.fnKey == "(*internal/cmd/runner.StepCodeGenerator).Run" {
+			inGen := c.fnKey == "(*internal/cmd/runner.StepCodeGenerator).Run" || (wHelper08 != nil && c.fn == wHelper08)
+			if c.name == "os.WriteFile" && inGen {
 				nw++
 				r.Hold("R10.1", key, "the one file write", e.P.Pos(c.ins.Pos()))
 			} else {
